@@ -248,7 +248,7 @@ def define_handler_units():
     c.raises = {"PathIOError": [], "CancelledError": [], "Exception": []}
     for verb, meth in VERBS.items():
         for mode in ("SEQ",):
-            c = contract(SERVER, f"Server.{meth}", props=["C03", "C04", "C05", "C11", "C13", "C16", "C17"] + (["C10"] if meth == "user" else []) + (["C14"] if meth == "abor" else []) + (["C20"] if meth == "pass_" else []) + (["C08"] if meth == "pwd" else []), name=f"Server.{meth}#{mode}")
+            c = contract(SERVER, f"Server.{meth}", props=["C03", "C04", "C05", "C11", "C13", "C16", "C17", "C19"] + (["C10"] if meth == "user" else []) + (["C14"] if meth == "abor" else []) + (["C20"] if meth == "pass_" else []) + (["C08"] if meth == "pwd" else []), name=f"Server.{meth}#{mode}")
             c.setup = make_handler_setup(meth, mode)
             c.uses = [(SERVER, "Server.get_paths"), (SERVER, "User.get_permissions#summary"), (SERVER, "Server._start_passive_server")]
             c.exit_hook = pasv_exit if meth in ("pasv", "epsv") else handler_exit
